@@ -18,7 +18,7 @@
 
 using namespace simk;
 
-extern "C" __attribute__((used)) const char *__asan_default_options() { return "exitcode=77:detect_leaks=0:abort_on_error=0:detect_stack_use_after_return=0"; }
+extern "C" __attribute__((used)) const char *__asan_default_options() { return "exitcode=77:detect_leaks=0:abort_on_error=0:detect_stack_use_after_return=0:quarantine_size_mb=4:thread_local_quarantine_size_kb=64:malloc_context_size=8"; }
 extern "C" __attribute__((used)) const char *__ubsan_default_options() { return "print_stacktrace=1:halt_on_error=1:exitcode=77"; }
 extern "C" __attribute__((used)) const char *__tsan_default_options() { return "exitcode=66:halt_on_error=1:report_signal_unsafe=0"; }
 
@@ -27,13 +27,13 @@ static double now_s() { return std::chrono::duration<double>(std::chrono::steady
 static const PropCfg kProps[] = {
   { "C01", "C01", "exploration", 0, 120000, 600,
     "plan = one child ending with a stratified exit code 0..255 or signal 1..31 at a drawn virtual time + <=12 wait/stop/terminate/kill/poll/sleep ops placed around it; distinct = distinct event-log hash; non-trivial = the child was started" },
-  { "C02", "C02", "exploration", 0, 30000, 900,
+  { "C02", "C02", "exploration", 0, 12000, 900,
     "plan = scripted child writing position-coded bytes (sizes straddling the drawn pipe capacity up to multi-MiB) on stdout/stderr and consuming stdin, parent reading/polling/draining/writing with drawn buffer sizes, blocking or nonblocking, optional writer thread; distinct = distinct event-log hash; non-trivial = at least one payload byte moved" },
   { "C03", "C03", "exploration", 0, 60000, 600,
     "plan = one start with drawn argv/env bytes, env behaviour, working directory, program form and parent cwd depth (short .. beyond PATH_MAX), allocator/getcwd faults; oracle at the simulated exec; distinct = distinct event-log hash; non-trivial = start reached fork or failed in path construction" },
-  { "C04", "C04", "fault_enumeration", 1, 600, 900,
+  { "C04", "C04", "fault_enumeration", 1, 3000, 900,
     "scenario = drawn start configuration (incl. unexecutable inputs); cases = the fault-free run plus one run per (call site of start on either side of fork, outcome of that call kind), plus call-site pairs (sampled in quick, complete for scenarios <= 70 sites in thorough); distinct = distinct event-log hash; non-trivial = a fault fired or start failed" },
-  { "C05", "C05", "fault_enumeration", 1, 400, 900,
+  { "C05", "C05", "fault_enumeration", 1, 1500, 900,
     "scenario = drawn API history ending in destroy (or a start scenario); cases = fault-free run plus one run per (library call site of any op, outcome) with the ownership ledger (descriptors, heap blocks, children) checked at every close/free and at the end; distinct = distinct event-log hash; non-trivial = a fault fired" },
   { "C06", "C06", "exploration", 0, 80000, 600,
     "plan = 1-3 handles, orders of start(with faults)/terminate/kill/wait/stop/destroy before and after exit and reap, aggressive pid reuse (squatter or recycle); monitor on every kill/waitpid argument; distinct = distinct event-log hash; non-trivial = a child was started" },
@@ -47,7 +47,7 @@ static const PropCfg kProps[] = {
     "complete enumeration of in(7) x out(7) x err(8) x shorthand(5) x caller descriptors 0-2 open/closed (8) x nonblocking(2) = 31360 configurations (invalid shorthand combinations fall back to the explicit ones); oracle = identity and direction of descriptors 0/1/2 at the simulated exec; distinct = distinct configuration index" },
   { "C11", "C11", "exploration", 0, 40000, 600,
     "plan = random extra caller descriptors (any number up to the limit, limit-1 included in a fixed fraction, with/without close-on-exec), descriptor limits 16..>1Mi, every redirect configuration, 1-4 threads starting children concurrently with pre-emption inside pipe creation; oracle = descriptor table at exec; distinct = distinct event-log hash" },
-  { "C12", "C12", "fault_enumeration", 1, 600, 900,
+  { "C12", "C12", "fault_enumeration", 1, 3000, 900,
     "scenario = drawn start configuration x caller mask (random 64-bit) x ignored/handled signals; cases = fault-free run plus one run per (call site of start, outcome) excluding the mask-restoring call; snapshot of mask/dispositions/cwd/environ around start and signal state at exec; distinct = distinct event-log hash" },
   { "C14", "C14", "exploration", 0, 150000, 900,
     "plan = 6-60 random ops over the whole API on 1-3 handles with arbitrary parameters, invalid/failing starts, fork mode, NULL handles, injected errors; every result compared with the life-cycle reference machine under ASan+UBSan; distinct = distinct event-log hash; non-trivial = at least one op ran on a started handle" },
@@ -204,6 +204,8 @@ static void enumerate_scenario(const PropCfg &cfg, WorkerStats &ws, const Plan &
       // ... and closes the ones that are open: folded into one site (first, middle, last are enough)
       if (s.child && s.kind == K_close && !seen_dup2) { if (++loop_probe_seen > 3) continue; }
       if (prop == "C12" && is_restoring_sigmask(s)) continue;
+      // the child's error report itself (4 bytes into an empty blocking pipe) has no channel to report its own failure
+      if (s.child && s.kind == K_write) continue;
       sites.push_back(s);
     }
     auto with_fault = [&](Plan &p, const CallSite &s, const Outcome &o) {
@@ -480,6 +482,7 @@ int main(int argc, char **argv) {
   if (machinery) { fprintf(stderr, "MACHINERY: %s\n", machinery_info.c_str()); return 2; }
 
   // ---- violations: minimise, gate, report
+  if (getenv("SIM_LIST_SIGS")) for (auto &kv : found) printf("SIG %s x%llu :: %s\n", kv.first.c_str(), (unsigned long long) kv.second.count, kv.second.detail.c_str());
   std::vector<KnownFinding> known = load_known(known_path);
   int new_violations = 0, known_hits = 0;
   Json vio = Json::arr();
